@@ -486,3 +486,18 @@ def s_lcs(I, a, b, p, q):
 
 SPEC_NS["lcs"] = s_lcs
 AXIOM_SETS["lcs"] = axioms_lcs
+
+
+def s_use_cnt_facts(I, s, letters, t):
+    """Ghost lemma application (sound: instances of the proved lemmas cnt.mono / cnt.range and of the definition):
+    for the prefix count at t and t+1 relative to the full count."""
+    l = as_slist(I.ctx, s)
+    f = cnt_fn(letters)
+    t_ = zint(t)
+    n = l.nz()
+    mem = z3.If(letters_member(z3.Select(l.arr, t_), letters), 1, 0)
+    I.ctx.assume(z3.Implies(z3.And(0 <= t_, t_ < n), z3.And(f(l.arr, t_ + 1) == f(l.arr, t_) + mem, f(l.arr, t_ + 1) <= f(l.arr, n), f(l.arr, t_) >= 0)), tag="lemma-instance")
+    return True
+
+
+SPEC_NS["use_cnt_facts"] = s_use_cnt_facts
